@@ -158,6 +158,7 @@ def extOfJson (d : Dicts) (id : Nat) (v : JVal) : Option SExt :=
   if id = 17 then plain .statusRequestV2 else
   if id = 18 then plain .sct else
   if id = 21 then (asUint 64 (field kvs "len")).bind fun n =>
+    if n > 65535 then none else       -- the repair: larger values used to wrap in `int(jsonObj.Length)`
     if n = 0 then some { ext := .padding 0 false, pol := .boring } else some { ext := .padding n true, pol := .unset } else
   if id = 23 then plain .ems else
   if id = 24 then
